@@ -623,13 +623,34 @@ namespace sim
 			// +----+------+------+----------+----------+----------+
 
 			char const* buf = m_udp_buffer.data();
+
+			// a datagram that is shorter than the header it announces is
+			// dropped; keep receiving
+			auto const drop_truncated = [this]
+			{
+				std::printf("UDP ASSOCIATE datagram shorter than its header, dropped\n");
+				m_udp_associate.async_receive_from(boost::asio::buffer(m_udp_buffer)
+					, m_udp_from, 0, std::bind(&socks_connection::on_read_udp, this, std::placeholders::_1, std::placeholders::_2));
+			};
+
+			// RSV(2) FRAG(1) ATYP(1) and the first address byte
+			if (bytes_transferred < 5)
+			{
+				drop_truncated();
+				return;
+			}
 			if (buf[2] != 0) std::printf("fragment != 0, not supported\n");
 
 			int const atyp = buf[3];
 			if (atyp == 3)
 			{
 				// hostname
-				int const len = buf[4];
+				int const len = std::uint8_t(buf[4]);
+				if (bytes_transferred < std::size_t(5 + len + 2))
+				{
+					drop_truncated();
+					return;
+				}
 
 				buf += 5;
 				bytes_transferred -= 5;
@@ -683,6 +704,11 @@ namespace sim
 			else if (atyp == 1)
 			{
 				// IPv4
+				if (bytes_transferred < 10)
+				{
+					drop_truncated();
+					return;
+				}
 				std::uint32_t addr = buf[4] & 0xff;
 				addr <<= 8;
 				addr |= buf[5] & 0xff;
